@@ -37,7 +37,7 @@ LOCK = threading.Lock()
 RERUNS = 5
 HANG_MS = 20000
 
-INVS = "AtMostOnce BudgetOK NoSameThreadConcurrent ValueAtItsPoint NoRace FlagCoherent ManagerCoherent LaunchedCoherent FinalOK NoStuck"
+INVS = "SeqNextFindsJob AtMostOnce BudgetOK NoSameThreadConcurrent ValueAtItsPoint NoRace FlagCoherent ManagerCoherent LaunchedCoherent FinalOK NoStuck"
 MC_BASE = dict(HUGE=1000000, NW=2, NP=4, BUDGET=3, BATCH=1, PAR="TRUE", GUARD="TRUE", INIT0=0, EAGER=1000, RNUM=1, RDEN=5,
                REORDER="TRUE", MAXCHG=1, SPURIOUS="TRUE", INITFULL="FALSE")
 
@@ -47,7 +47,9 @@ def mc_cfg(path, live=False, **kw):
     d.update(kw)
     t = "SPECIFICATION %s\nCONSTANTS\n" % ("FairSpec" if live else "MCSpec")
     t += "".join("  %s = %s\n" % (k, v) for k, v in d.items())
-    t += "INVARIANTS " + INVS + "\n"
+    # NoStuck (some thread can move without a spurious wake-up) costs one more ENABLED per state: in the fair
+    # configurations Termination implies it
+    t += "INVARIANTS " + (INVS.replace(" NoStuck", "") if live else INVS) + "\n"
     if live:
         t += "PROPERTY Termination\n"
     open(path, "w").write(t)
@@ -58,14 +60,15 @@ def mc_plan(quick):
     """(label, constants, liveness?, expected violation or None, workers)"""
     P = []
     if quick:
-        P += [("par-budget-above-pool", dict(NW=3, NP=4, BUDGET=6, INITFULL="TRUE"), True, None, 4),
-              ("par-budget=workers", dict(NW=3, NP=5, BUDGET=3, INITFULL="TRUE"), True, None, 2),
+        P += [("par-budget-above-pool-3w", dict(NW=3, NP=4, BUDGET=6, INITFULL="TRUE"), False, None, 4),
+              ("par-budget-above-pool-2w", dict(NW=2, NP=4, BUDGET=6, INITFULL="TRUE"), True, None, 2),
+              ("par-budget=workers", dict(NW=3, NP=5, BUDGET=3, INITFULL="TRUE"), True, None, 1),
               ("par-budget<workers", dict(NW=3, NP=5, BUDGET=2, INITFULL="TRUE"), True, None, 1),
-              ("par-batch2", dict(NW=3, NP=6, BUDGET=5, BATCH=2, INITFULL="TRUE"), True, None, 2),
+              ("par-batch2", dict(NW=3, NP=6, BUDGET=5, BATCH=2, INITFULL="TRUE"), True, None, 1),
               ("par-any-initial-list", dict(NW=2, NP=4, BUDGET=3, MAXCHG=1), False, None, 4),
               ("par-unsigned-subtraction", dict(NW=2, NP=4, BUDGET=1, INIT0=3), True, None, 1),
               ("par-budget-zero", dict(NW=2, NP=3, BUDGET=0), True, None, 1),
-              ("par-deferred-load", dict(NW=2, NP=4, BUDGET=6, EAGER=0, RNUM=1, RDEN=1, INITFULL="TRUE"), True, None, 2),
+              ("par-deferred-load", dict(NW=2, NP=4, BUDGET=6, EAGER=0, RNUM=1, RDEN=1, INITFULL="TRUE"), True, None, 1),
               ("seq", dict(NW=2, NP=5, BUDGET=9, PAR="FALSE", MAXCHG=2), True, None, 1),
               ("seq-batch2-below", dict(NW=1, NP=5, BUDGET=3, BATCH=2, PAR="FALSE", MAXCHG=1), True, None, 1),
               ("AS-PINNED:par-budget<workers", dict(NW=3, NP=5, BUDGET=2, INITFULL="TRUE", GUARD="FALSE"), False, "BudgetOK", 1),
@@ -248,13 +251,15 @@ PHASE = {"Launch": "initial-launch", "Handout": "hand-out", "Collect": "collect"
          "ModelBegin": "model-entry", "ModelEnd": "model-exit", "Final": "final-grid", "End": "return", "Flush": "flush",
          "Joined": "join", "SeqNext": "seq-next", "SeqStore": "seq-store", "Checkout": "check-out", "Hang": "hang", "Threw": "exception"}
 CLAUSE = {"CBudgetOK": "budget-exceeded", "CAtMostOnce": "called-twice", "CNoSameThreadConcurrent": "same-thread-id-concurrent",
-          "CValueAtItsPoint": "value-at-wrong-point", "LCAtMostOnce": "called-twice", "LCNoSameThreadConcurrent": "same-thread-id-concurrent",
+          "CValueAtItsPoint": "value-at-wrong-point", "CSurrogateReproduces": "surrogate-not-reproducing", "LCAtMostOnce": "called-twice", "LCNoSameThreadConcurrent": "same-thread-id-concurrent",
           "LCExactlyOnceValueAtItsPoint": "not-exactly-once-or-value-at-wrong-point", "CallbackIllFormed": "callback-ill-formed"}
 
 
-def signature(mode, rej, clause):
+def signature(mode, rej, clause, fam=""):
     ev = (rej["event"] or {}).get("e", "truncated")
     ph = PHASE.get(ev, ev)
+    if ev == "Final" and fam:
+        ph = fam                      # content of the final grid: the grid family is the specific input
     if ev == "Hang":
         return "termination:hang:%s" % mode
     if clause:
@@ -310,7 +315,7 @@ def examine(ctx, drv, kind, pairs, base, stats, rerun=True):
             stats["skipped"].append({"scenario": line, "event": rej["event"]})
             continue
         clause = callback_layer(kind, ex, "%s.e%d" % (base, k)) if ev != "Hang" else None
-        sig = signature(mode, rej, clause)
+        sig = signature(mode, rej, clause, ex[0].get("fam", ""))
         # self-evidently illegal: a named clause fails on the callback events alone, or an invariant fails on an accepted prefix
         confirmed = clause is not None or rej["what"].startswith("inv:")
         repeats = []
@@ -436,7 +441,7 @@ def model_checking(ctx, wd):
 
     def one(item):
         label, kw, live, expect, workers = item
-        c = mc_cfg(os.path.join(wd, "mc-%s.cfg" % re.sub(r"[^A-Za-z0-9]+", "_", label)), live=live, **kw)
+        c = mc_cfg(os.path.join(wd, "mc-%d-%s.cfg" % (plan.index(item), re.sub(r"[^A-Za-z0-9]+", "_", label))), live=live, **kw)
         return vf.run_tlc("ParConstructMC.tla", c, workers=workers, timeout=3000 if ctx.quick else 14000, xmx="6g" if ctx.quick else "16g")
 
     def lnp(item):
@@ -453,7 +458,7 @@ def model_checking(ctx, wd):
         return vf.run_tlc("ParConstructMC.tla", c, workers=2, timeout=3000, xmx="4g", coverage=True)
 
     lplan = [("3x5", 3, 5, "TRUE"), ("2x1", 2, 1, "TRUE"), ("seq", 0, 4, "TRUE")] + ([] if ctx.quick else [("4x6", 4, 6, "TRUE"), ("3x7", 3, 7, "TRUE")])
-    cplan = [("par", dict(NW=2, NP=3, BUDGET=3, MAXCHG=1)), ("seq", dict(NW=1, NP=3, BUDGET=9, PAR="FALSE", MAXCHG=1))]
+    cplan = [("par", dict(NW=2, NP=3, BUDGET=3, MAXCHG=1)), ("seq", dict(NW=1, NP=5, BUDGET=9, PAR="FALSE", MAXCHG=1))]
     tasks = [("mc", p) for p in plan] + [("ln", p) for p in lplan] + [("cov", p) for p in cplan]
 
     def run_task(t):
@@ -480,7 +485,8 @@ def model_checking(ctx, wd):
         elif r.violated:
             ctx.report("spec:%s:%s" % (r.violated, label), "the design specification violates %s in configuration %s" % (r.violated, label),
                        {"config": item[1] if kind == "mc" else label, "tlc": r.error_trace[:6000]})
-    dead = sorted(a for a, g in covered.items() if g == 0)
+    # MSeqRefresh / MSeqNext2 model a defensive branch of the sequential loop that invariant SeqNextFindsJob proves unreachable
+    dead = sorted(a for a, g in covered.items() if g == 0 and a not in ("MSeqRefresh", "MSeqNext2"))
     ctx.extra["action_coverage"] = {"actions": len(covered), "dead": dead, "how": "tlc -coverage 1 on a parallel and a sequential configuration"}
     if dead or not covered:
         raise vf.FrameworkError("dead actions in ParConstruct.tla (never taken): %s" % dead)
@@ -567,6 +573,12 @@ def replay(ctx, path):
 # ----------------------------------------------------------------------------- mutants of the implementation (scratch copy outside /repo and /verif)
 
 MUTANTS = [
+    ("PINNED DEFECT: initial launch loop without the budget test (revert of cc79f73)", "Addons/tsgConstructSurrogate.hpp",
+     """            if (total_num_launched < max_num_points) // respect the budget, same as in collect_finished()
+                x[id] = manager.next(max_num_points - total_num_launched);""",
+     """            x[id] = manager.next(max_num_points - total_num_launched);"""),
+    ("PINNED DEFECT: local polynomial candidates propose computed-but-unconnected samples again (revert of 512514e)", "SparseGrids/tsgGridLocalPolynomial.cpp",
+     "    if (!dynamic_values->data.empty() && !new_points.empty()){", "    if (false){"),
     ("refresh forgets the running jobs (same job handed out twice)", "Addons/tsgCandidateManager.hpp",
      "            if (i < num_candidates) status[sorted[i]] = running;", "            if (i < num_candidates) status[sorted[i]] = free;"),
     ("worker notifies before it sets the flag (lost wake-up)", "Addons/tsgConstructSurrogate.hpp",
